@@ -105,6 +105,10 @@ fn templates() -> Vec<Template> {
     add("MalformedDocComment", "enumerator-field", vec![slot(Def), l("enum E {"), slot(Sibling), l("  W"), slot(Member), l("  V("), slot(Elem), l("/// @foo bar"), l("    f: int32"), l("  )"), l("}")]);
     add("BrokenDocLink", "link-in-a-param-message", vec![slot(Def), l("interface I {"), slot(Sibling), l("  other()"), slot(Elem), l("/// @param a: see {@link Nope}"), l("  op(a: int32)"), l("}")]);
     add("BrokenDocLink", "see-tag", vec![slot(Sibling), l("struct Sib {}"), slot(Elem), l("/// @see Nope"), l("struct S {}")]);
+    // ONE element that owns two lints of different kinds (the second is of the control's kind and says "Companion"): a
+    // suppression on the element that names one of them says nothing about the other
+    add("Deprecated", "field-with-a-broken-link-too", vec![slot(Def), l("struct S {"), slot(Sibling), l("  s: int32"), slot(Elem), l("/// See {@link NopeCompanion}."), l("  f: D"), l("}")]);
+    add("Deprecated", "alias-with-a-broken-link-too", vec![slot(Sibling), l("struct Sib {}"), slot(Elem), l("/// See {@link NopeCompanion}."), l("typealias A = D")]);
     v
 }
 
@@ -326,7 +330,10 @@ fn run_config(t: &Template, places: &[(Place, Arg)], with_error: u8, swap: bool,
             continue;
         }
         let is_target = d.code == t.lint;
-        let is_control = d.code == t.control;
+        // (a lint of the control's KIND that sits on the target element - its message says "Companion" - is in scope
+        // of exactly the placements the target is in scope of)
+        let is_companion = d.code == t.control && d.message.contains("Companion");
+        let is_control = d.code == t.control && !is_companion;
         let mut expected_allowed: Option<bool> = Some(false);
         for (p, a) in places {
             if !names(a, &d.code, t) {
@@ -335,7 +342,7 @@ fn run_config(t: &Template, places: &[(Place, Arg)], with_error: u8, swap: bool,
             if *a == Arg::ThatLowercase && *p != Place::Cli {
                 continue; // only judged on the command line (in an attribute it is an invalid argument: an error)
             }
-            let sc = if is_target {
+            let sc = if is_target || is_companion {
                 in_scope_target(*p)
             } else if is_control {
                 Some(in_scope_control(*p))
@@ -774,6 +781,65 @@ impl SameNameBothDeprecated {
     }
 }
 
+/// An `allow` attribute with several arguments of which some are not lint names: every such argument is an error of
+/// its own, and the lints that the OTHER arguments name are silenced all the same, wherever they stand in the list.
+pub struct InvalidNamesInTheList;
+const INL_LISTS: [(&str, usize); 8] = [
+    ("MalformedDocComment", 0),
+    ("Bogus, MalformedDocComment", 1),
+    ("MalformedDocComment, Bogus", 1),
+    ("Nope1, Nope2, MalformedDocComment", 2),
+    ("Nope1, MalformedDocComment, Nope2", 2),
+    ("deprecated, MalformedDocComment", 1),
+    ("DuplicateFile2, All", 1),
+    ("Bogus", 1),
+];
+impl Family for InvalidNamesInTheList {
+    fn name(&self) -> String {
+        format!("invalid-names-in-the-list/{} argument lists of an allow attribute (0..2 names that are no lints before, after or around the name that matters) x {{file attribute, attribute on the element}} x 2 formats of the lint (a malformed doc comment: the lint the parser itself reports)", INL_LISTS.len())
+    }
+    fn len(&self) -> u64 {
+        INL_LISTS.len() as u64 * 2
+    }
+    fn describe(&self, idx: u64) -> Value {
+        json!({"file": Self::text(idx).0})
+    }
+    fn run(&self, idx: u64) -> CaseOut {
+        let (text, n_invalid, names_it) = Self::text(idx);
+        let mut out = CaseOut::new(hash_str(&format!("c13inl{idx}")));
+        out.validated = 1;
+        out.nontrivial = n_invalid > 0;
+        match compile_texts(&[&text], None) {
+            Err((loc, msg)) => out.violate(format!("c13/invalid-names-in-the-list/panic@{loc}"), format!("{msg}\n--- input ---\n{text}")),
+            Ok((_, _, diags)) => {
+                let errors = diags.iter().filter(|d| d.level == "error").count();
+                let lint: Vec<&DiagObs> = diags.iter().filter(|d| d.code == "MalformedDocComment").collect();
+                if errors != n_invalid {
+                    out.violate("c13/invalid-names-in-the-list/one-error-per-invalid-name", format!("{n_invalid} argument(s) of the attribute are no lint names but {errors} error(s) were reported: {:?}\n--- input ---\n{text}", diags.iter().map(|d| (&d.code, &d.level, &d.message)).collect::<Vec<_>>()));
+                }
+                let want = if names_it { "allowed" } else { "warning" };
+                if lint.len() != 1 || lint[0].level != want {
+                    out.violate(format!("c13/invalid-names-in-the-list/{}", if names_it { "named-lint-not-silenced" } else { "unnamed-lint-silenced" }), format!("the MalformedDocComment lint must have level {want}: {:?}\n--- input ---\n{text}", lint.iter().map(|d| &d.level).collect::<Vec<_>>()));
+                }
+                out.class = format!("{n_invalid}invalid:{}", lint.first().map_or("none", |d| d.level.as_str()));
+            }
+        }
+        out
+    }
+}
+impl InvalidNamesInTheList {
+    fn text(idx: u64) -> (String, usize, bool) {
+        let (list, n_invalid) = INL_LISTS[(idx % INL_LISTS.len() as u64) as usize];
+        let names_it = list.contains("MalformedDocComment") || list.contains("All");
+        let text = if idx / INL_LISTS.len() as u64 == 0 {
+            format!("[[allow({list})]]\nmodule M\n/// @foo bar\nstruct S {{}}\n")
+        } else {
+            format!("module M\n[allow({list})]\n/// @foo bar\nstruct S {{}}\n")
+        };
+        (text, n_invalid, names_it)
+    }
+}
+
 pub fn families(_tier: &str) -> Vec<Box<dyn Family>> {
-    vec![Box::new(DuplicateFile), Box::new(Product::new()), Box::new(BinaryDifferential::new()), Box::new(PlacementPairs::new()), Box::new(SameNameBothDeprecated)]
+    vec![Box::new(DuplicateFile), Box::new(InvalidNamesInTheList), Box::new(Product::new()), Box::new(BinaryDifferential::new()), Box::new(PlacementPairs::new()), Box::new(SameNameBothDeprecated)]
 }
